@@ -1,7 +1,7 @@
 (* Properties_C14.v — C14: ray casting visits a connected, in-bounds chain of cells covering the segment. *)
 From Coq Require Import Reals ZArith List Bool Arith Lia Lra.
 From Romea Require Import Num NumR GridMapModel GridMapProofs RayCastModel RayCastProofs RayCastMerge RayCastSegment RayCastAssembly RayCastBounds.
-From Romea Require Import SrcEigen SrcTieC14.
+From Romea Require Import SrcEigen SrcTieC14 SrcTieC14Cast.
 From Romea.gen Require Import SrcRayCast.
 Import ListNotations.
 
@@ -426,3 +426,123 @@ Print Assumptions C14_source_tie_set_end_3d.
 (* non-vacuity: the real dictionary reads the literals as the model does *)
 Example C14_source_tie_ex : LitOK ROps.
 Proof. exact LitOK_R. Qed.
+
+(* cast(): the `while (++n != rayNumberOfCells) { next(cur); ray[n] = cur; }` loop is translated to a local fix on a fuel
+   argument (None = the C++ loop would still be running), the returned std::vector to (size, function of the index), with
+   computeRayNumberOfCells and the specialisation of next inlined.  With fuel >= number of cells the generated cast() returns
+   exactly the model's [cast_cells] (the list C14_cast_walk, C14_cells_meet_segment, ... are about) and leaves rayTMax_ as
+   [after_cast] says — for every numeric dictionary. *)
+Theorem C14_source_tie_cast_loop_2d : forall (T : Type) (N : NumOps T) (c : caster (T:=T)) e0 e1 o0 o1 s0 s1 d0 d1 t0 t1 fuel,
+  rc_eidx c = [e0; e1] -> rc_oidx c = [o0; o1] -> rc_step c = [s0; s1] -> rc_tdelta c = [d0; d1] -> rc_tmax c = [t0; t1] ->
+  (Z.to_nat (ncells c) <= fuel)%nat ->
+  match src_cast_2 N IdealInt fuel e0 e1 o0 o1 s0 s1 d0 d1 t0 t1 with
+  | None => False
+  | Some ((k, ray), tmax) =>
+      k = ncells c /\ tmax = rc_tmax (after_cast N c) /\
+      forall j, (j < length (cast_cells N c))%nat -> ray (Z.of_nat j) = nth j (cast_cells N c) []
+  end.
+Proof. exact @tie_cast_2. Qed.
+
+Theorem C14_source_tie_cast_loop_3d : forall (T : Type) (N : NumOps T) (c : caster (T:=T))
+    e0 e1 e2 o0 o1 o2 s0 s1 s2 d0 d1 d2 t0 t1 t2 fuel,
+  rc_eidx c = [e0; e1; e2] -> rc_oidx c = [o0; o1; o2] -> rc_step c = [s0; s1; s2] -> rc_tdelta c = [d0; d1; d2] ->
+  rc_tmax c = [t0; t1; t2] -> (Z.to_nat (ncells c) <= fuel)%nat ->
+  match src_cast_3 N IdealInt fuel e0 e1 e2 o0 o1 o2 s0 s1 s2 d0 d1 d2 t0 t1 t2 with
+  | None => False
+  | Some ((k, ray), tmax) =>
+      k = ncells c /\ tmax = rc_tmax (after_cast N c) /\
+      forall j, (j < length (cast_cells N c))%nat -> ray (Z.of_nat j) = nth j (cast_cells N c) []
+  end.
+Proof. exact @tie_cast_3. Qed.
+Print Assumptions C14_source_tie_cast_loop_3d.
+
+(* cast(origin, end) — the operation the property is about — with setOriginPoint, setEndPoint, cast() and everything they call
+   inlined from the two source files, is the model's OpCastOE: the cells are cast_cells of
+   set_end (set_origin c origin) end, the state left behind is after_cast of it.  tab_i: contents of the grid's cell-centre
+   table of axis i (C13_source_tie_constructor: the constructor stores gm_centre there). *)
+Theorem C14_source_tie_cast_origin_end_2d : forall (T : Type) (N : NumOps T), LitOK N ->
+  forall (c : caster (T:=T)) a0 a1 r p0 p1 e0 e1 (tab0 tab1 : Z -> T) fuel,
+  rc_axes c = [a0; a1] -> ax_r a0 = r -> ax_r a1 = r ->
+  (forall k, tab0 k = gm_centre N r (ax_org a0) k) -> (forall k, tab1 k = gm_centre N r (ax_org a1) k) ->
+  let c' := set_end N (set_origin N c [p0; p1]) [e0; e1] in
+  (Z.to_nat (ncells c') <= fuel)%nat ->
+  match src_castOE_2 N IdealInt fuel p0 p1 e0 e1 tab0 tab1 r (ax_org a0) (ax_org a1) with
+  | None => False
+  | Some ((k, ray), dir, eidx, ep, oidx, op, step, td, tm) =>
+      (k = ncells c' /\ tm = rc_tmax (after_cast N c') /\
+       forall j, (j < length (cast_cells N c'))%nat -> ray (Z.of_nat j) = nth j (cast_cells N c') []) /\
+      oidx = rc_oidx c' /\ op = rc_origin c' /\ eidx = rc_eidx c' /\ step = rc_step c' /\ td = rc_tdelta c'
+  end.
+Proof.
+  intros T N L c a0 a1 r p0 p1 e0 e1 tab0 tab1 fuel Ha R0 R1 T0 T1 c' Hf.
+  pose proof (tie_castOE_2 N L c a0 a1 r p0 p1 e0 e1 tab0 tab1 fuel Ha R0 R1 T0 T1 Hf) as H.
+  unfold castOE_result, cast_result in H.
+  destruct (src_castOE_2 N IdealInt fuel p0 p1 e0 e1 tab0 tab1 r (ax_org a0) (ax_org a1))
+    as [[[[[[[[[[k ray] dir] eidx] ep] oidx] op] step] td] tm]|]; exact H.
+Qed.
+
+Theorem C14_source_tie_cast_origin_end_3d : forall (T : Type) (N : NumOps T), LitOK N ->
+  forall (c : caster (T:=T)) a0 a1 a2 r p0 p1 p2 e0 e1 e2 (tab0 tab1 tab2 : Z -> T) fuel,
+  rc_axes c = [a0; a1; a2] -> ax_r a0 = r -> ax_r a1 = r -> ax_r a2 = r ->
+  (forall k, tab0 k = gm_centre N r (ax_org a0) k) -> (forall k, tab1 k = gm_centre N r (ax_org a1) k) ->
+  (forall k, tab2 k = gm_centre N r (ax_org a2) k) ->
+  let c' := set_end N (set_origin N c [p0; p1; p2]) [e0; e1; e2] in
+  (Z.to_nat (ncells c') <= fuel)%nat ->
+  match src_castOE_3 N IdealInt fuel p0 p1 p2 e0 e1 e2 tab0 tab1 tab2 r (ax_org a0) (ax_org a1) (ax_org a2) with
+  | None => False
+  | Some ((k, ray), dir, eidx, ep, oidx, op, step, td, tm) =>
+      (k = ncells c' /\ tm = rc_tmax (after_cast N c') /\
+       forall j, (j < length (cast_cells N c'))%nat -> ray (Z.of_nat j) = nth j (cast_cells N c') []) /\
+      oidx = rc_oidx c' /\ op = rc_origin c' /\ eidx = rc_eidx c' /\ step = rc_step c' /\ td = rc_tdelta c'
+  end.
+Proof.
+  intros T N L c a0 a1 a2 r p0 p1 p2 e0 e1 e2 tab0 tab1 tab2 fuel Ha R0 R1 R2 T0 T1 T2 c' Hf.
+  pose proof (tie_castOE_3 N L c a0 a1 a2 r p0 p1 p2 e0 e1 e2 tab0 tab1 tab2 fuel Ha R0 R1 R2 T0 T1 T2 Hf) as H.
+  unfold castOE_result, cast_result in H.
+  destruct (src_castOE_3 N IdealInt fuel p0 p1 p2 e0 e1 e2 tab0 tab1 tab2 r (ax_org a0) (ax_org a1) (ax_org a2))
+    as [[[[[[[[[[k ray] dir] eidx] ep] oidx] op] step] td] tm]|]; exact H.
+Qed.
+Print Assumptions C14_source_tie_cast_origin_end_3d.
+
+(* cast(end): the model's OpCastEnd *)
+Theorem C14_source_tie_cast_end_2d : forall (T : Type) (N : NumOps T), LitOK N ->
+  forall (c : caster (T:=T)) a0 a1 r o0 o1 oi0 oi1 e0 e1 (tab0 tab1 : Z -> T) fuel,
+  rc_axes c = [a0; a1] -> rc_origin c = [o0; o1] -> rc_oidx c = [oi0; oi1] -> ax_r a0 = r -> ax_r a1 = r ->
+  tab0 oi0 = gm_centre N r (ax_org a0) oi0 -> tab1 oi1 = gm_centre N r (ax_org a1) oi1 ->
+  (Z.to_nat (ncells (set_end N c [e0; e1])) <= fuel)%nat ->
+  castE_result N (set_end N c [e0; e1]) (src_castE_2 N IdealInt fuel e0 e1 tab0 tab1 r (ax_org a0) (ax_org a1) oi0 oi1 o0 o1).
+Proof. exact @tie_castE_2. Qed.
+
+Theorem C14_source_tie_cast_end_3d : forall (T : Type) (N : NumOps T), LitOK N ->
+  forall (c : caster (T:=T)) a0 a1 a2 r o0 o1 o2 oi0 oi1 oi2 e0 e1 e2 (tab0 tab1 tab2 : Z -> T) fuel,
+  rc_axes c = [a0; a1; a2] -> rc_origin c = [o0; o1; o2] -> rc_oidx c = [oi0; oi1; oi2] ->
+  ax_r a0 = r -> ax_r a1 = r -> ax_r a2 = r ->
+  tab0 oi0 = gm_centre N r (ax_org a0) oi0 -> tab1 oi1 = gm_centre N r (ax_org a1) oi1 ->
+  tab2 oi2 = gm_centre N r (ax_org a2) oi2 ->
+  (Z.to_nat (ncells (set_end N c [e0; e1; e2])) <= fuel)%nat ->
+  castE_result N (set_end N c [e0; e1; e2])
+    (src_castE_3 N IdealInt fuel e0 e1 e2 tab0 tab1 tab2 r (ax_org a0) (ax_org a1) (ax_org a2) oi0 oi1 oi2 o0 o1 o2).
+Proof. exact @tie_castE_3. Qed.
+
+(* non-vacuity: the generated cast() on the caster of C14_ex, with 4 units of fuel, returns its 4 cells, the last being (2,1) *)
+Example C14_source_tie_cast_ex :
+  match src_cast_2 ROps IdealInt 4 2 1 0 0 1 1 2%R 4%R 1%R 2%R with
+  | None => False
+  | Some ((k, ray), _) => k = 4%Z /\ ray 0%Z = [0; 0]%Z /\ ray 3%Z = [2; 1]%Z
+  end.
+Proof.
+  pose (c := {| rc_axes := []; rc_origin := []; rc_oidx := [0; 0]%Z; rc_eidx := [2; 1]%Z;
+                rc_tmax := [1; 2]%R; rc_tdelta := [2; 4]%R; rc_step := [1; 1]%Z |}).
+  pose proof (C14_source_tie_cast_loop_2d R ROps c 2 1 0 0 1 1 2%R 4%R 1%R 2%R 4 eq_refl eq_refl eq_refl eq_refl eq_refl) as H.
+  assert (Hn : ncells c = 4%Z) by reflexivity.
+  destruct (src_cast_2 ROps IdealInt 4 2 1 0 0 1 1 2%R 4%R 1%R 2%R) as [[[k ray] tm]|]; [|apply H; rewrite Hn; lia].
+  destruct H as (Hk & _ & Hr); [rewrite Hn; lia|].
+  destruct C14_ex as (Hlen & Hlast). fold c in Hlen, Hlast.
+  split; [rewrite Hk; exact Hn|]. split.
+  - replace (ray 0%Z) with (ray (Z.of_nat 0)) by reflexivity. rewrite (Hr 0%nat) by (rewrite Hlen; lia). reflexivity.
+  - replace (ray 3%Z) with (ray (Z.of_nat 3)) by reflexivity. rewrite (Hr 3%nat) by (rewrite Hlen; lia).
+    rewrite <- Hlast.
+    assert (HL : forall (l : list (list Z)), length l = 4%nat -> nth 3 l [] = last l []).
+    { intros [|a [|b [|c0 [|d [|x l]]]]] Hl; try discriminate Hl. reflexivity. }
+    apply HL. exact Hlen.
+Qed.
